@@ -379,6 +379,27 @@ fn rx_from_c5(p: c5::Packet) -> Rx {
     }
 }
 
+/// Decode one frame from the front of `buf` with the client library of that version;
+/// `Ok(None)` when the frame is not complete yet.
+pub fn client_decode_one(buf: &mut BytesMut, v5: bool) -> Result<Option<Rx>, String> {
+    if buf.is_empty() {
+        return Ok(None);
+    }
+    if v5 {
+        match c5::Packet::read(buf, None) {
+            Ok(p) => Ok(Some(rx_from_c5(p))),
+            Err(c5b::Error::InsufficientBytes(_)) => Ok(None),
+            Err(e) => Err(format!("{e:?}")),
+        }
+    } else {
+        match c4::Packet::read(buf, usize::MAX) {
+            Ok(p) => Ok(Some(rx_from_c4(p))),
+            Err(c4b::Error::InsufficientBytes(_)) => Ok(None),
+            Err(e) => Err(format!("{e:?}")),
+        }
+    }
+}
+
 /// Decode every frame in `buf` with the client library of that version.
 pub fn client_decode_all(buf: &mut BytesMut, v5: bool) -> Result<Vec<Rx>, String> {
     let mut out = vec![];
